@@ -52,7 +52,7 @@ pub open spec fn ingest_raw_spec(r0: Seq<char>, config: &Config) -> Seq<char> {
 
 impl<'a> StateMachine<'a> {
     //@ fn src/delta.rs StateMachine::ingest_line_utf8
-    //@| ensures final(self).raw_line@ == ingest_raw_spec(raw_line@, old(self).config),  // @C04,C01,C08,C09,C14:ingest.raw.line.changes.only.by.cr.removal.or.truncation
+    //@| ensures final(self).raw_line@ == ingest_raw_spec(raw_line@, old(self).config),  // @C04,C01,C08,C09,C14,C16:ingest.raw.line.changes.only.by.cr.removal.or.truncation.and.json.lines.are.never.truncated
     //@|         final(self).line@ == strip_spec(final(self).raw_line@),  // @C08:ingest.line.is.the.stripped.raw.line
     //@|         final(self).state == old(self).state && final(self).painter == old(self).painter && final(self).config == old(self).config,
     //@rewrite <<<ansi::measure_text_width(&self.raw_line[cr_index + 1..])>>> => <<<ansi::measure_text_width(verif_str_from(&self.raw_line, cr_index + 1))>>>
